@@ -81,9 +81,34 @@ theorem idsNE_ofTree {t : Tree} (h : t.idOK) : IdsNE (PTree.ofTree t) := by
       | token kt txt =>
         rw [firstToken_tokenChild] at htk
         cases htk
-        have := byteLen_pos (txt := txt) (by simpa [idHead] using hh)
+        have := byteLen_pos (txt := txt) (by simpa [idHead] using hh.1)
         simp only [PTree.start, PTree.stop]
         omega
+
+/-- identifier nodes of an annotated tree begin with a token that does not begin with a quote -/
+theorem idsPlain_ofTree {t : Tree} (h : t.idOK) : IdsPlainT (PTree.ofTree t) := by
+  rintro tk ⟨d, hd, hnode, hkind, htk⟩
+  obtain ⟨u, p, hsub, rfl⟩ := desc_ofTreeAt hd
+  have hu := hsub.idOK h
+  cases u with
+  | token k' txt => simp [ofTreeAt, PTree.isNode] at hnode
+  | node k' cs =>
+    have hk' : k' = .Identifier := by
+      have := (ofTreeAt_kind (.node k' cs) p).1
+      rw [hkind] at this
+      exact this.symm
+    simp only [Tree.idOK_node] at hu
+    have hh := hu.1 hk'
+    cases cs with
+    | nil => rw [firstToken_noChild] at htk; cases htk
+    | cons c cs' =>
+      cases c with
+      | node => simp [idHead] at hh
+      | token kt txt =>
+        rw [firstToken_tokenChild] at htk
+        cases htk
+        have h2 : txt.head? ≠ some '"' := by simpa [idHead] using hh.2
+        simpa [PTree.text] using h2
 
 theorem parse_idOK {input : List Char} {r : Grammar.ParseResult} (h : Grammar.parse input = .ok r) : r.tree.idOK := by
   unfold Grammar.parse at h
@@ -110,6 +135,22 @@ theorem parseFile_idsNE {text : String} {t : PTree} {errs : List SynError}
   · cases h
   · cases h
 
+theorem parseFile_idsPlain {text : String} {t : PTree} {errs : List SynError}
+    (h : parseFile text = .ok (t, errs)) : IdsPlainT t := by
+  unfold parseFile at h
+  split at h
+  · rename_i r hr
+    cases h
+    exact idsPlain_ofTree (parse_idOK hr)
+  · cases h
+  · cases h
+
+theorem defaultTree_idsPlain : IdsPlainT (PTree.node .SourceFile 0 0 1 #[]) := by
+  rintro t ⟨d, hd, hnode, hkind, _⟩
+  have : d = emptyTree := desc_emptyTree hd
+  subst this
+  simp [emptyTree, PTree.kind] at hkind
+
 theorem defaultTree_idsNE : IdsNE (PTree.node .SourceFile 0 0 1 #[]) := by
   intro d hd hnode hkind
   have : d = emptyTree := desc_emptyTree hd
@@ -125,6 +166,11 @@ theorem built_wsOK {vfs : List (String × String)} {rootPath : String} {inc : Op
   intro g
   obtain ⟨txt, hs, _⟩ := hwf.tree_spans g
   exact ⟨⟨txt, hs⟩, hids g⟩
+
+/-- **in workspaces built by `buildWorkspace` identifiers are not quoted** -/
+theorem built_idsPlain {vfs : List (String × String)} {rootPath : String} {inc : Option String} {ws : Workspace}
+    (h : buildWorkspace vfs rootPath inc = .ok ws) : IdsPlain ws :=
+  buildWorkspace_treesP (P := IdsPlainT) parseFile_idsPlain defaultTree_idsPlain h
 
 end Index
 
